@@ -134,6 +134,46 @@ def law_stateless(chk, lp, rule, file):
     return bad is None
 
 
+def law_left_to_right(chk, lp, rule, file):
+    """What follows a finished token does not change it: when a text p plus a
+    blank lexes as tokens(p) followed by the blank's own token, then p, the
+    blank and any further character c lex as that followed by tokens(c).  (A
+    scanner that first looks at the whole program - a fast path for texts
+    without literal heads, a pre-pass - lexes the same literal differently
+    depending on text far to its right.)"""
+    sp = " "
+    rs = lp.run(sp)
+    if not (isinstance(rs, list) and len(rs) == 1):
+        chk.info(rule, "tokenise", "a blank is not a token of its own; law "
+                 "not applicable")
+        return 0
+    keys = [k[0] for k in list(lp._cache) if isinstance(k, tuple)
+            and k[1] == 0 and len(k[0]) <= 2]
+    bad = None
+    n = 0
+    for p_ in keys:
+        rp = lp.run(p_)
+        base = lp.run(p_ + sp)
+        if not (isinstance(rp, list) and isinstance(base, list)
+                and base == rp + rs):
+            continue
+        for c in lp.reps:
+            rc = lp.run(c)
+            if not isinstance(rc, list):
+                continue
+            n += 1
+            r = lp.run(p_ + sp + c)
+            if r != base + rc:
+                bad = bad or (p_ + sp + c, base + rc, r)
+    chk.ob(rule, "tokenise left to right", bad is None,
+           (f"{bad[0]!r} is lexed as {bad[2]}, but its first part alone as "
+            f"{bad[1][:-1]}: how a literal is lexed depends on the text that "
+            "follows it") if bad else "", file,
+           witness=repr(bad[0]) if bad else None,
+           sample={"continuations": n})
+    return n
+
+
 def law_total(chk, lp, rule, file):
     chk.ob(rule, "lexer on every probe", not lp.raised,
            "the lexer raises on some input (e.g. "
